@@ -437,6 +437,8 @@ Outcome evaluate(const Desc& d, const Variant& v, const Profile& pf, const Plan&
 static bool same_class(const Outcome& a, const Outcome& b) {
     if (b.verdict == V_OK) return false;
     if (a.level != b.level) return false;
+    // same kind of finding: the part of the detail before the first ':' names it
+    if (a.detail.substr(0, a.detail.find(':')) != b.detail.substr(0, b.detail.find(':'))) return false;
     return a.props == b.props;
 }
 
